@@ -5,5 +5,5 @@ package snaps
 // A second test file of the package for the native twin (see h11ViaOther).
 func init() {
 	viaOtherTestFile = func(f func()) { f() }
-	otherTestFileBase = "zz_other_test"
+	otherTestFileBase = "zz_other.dot_test"
 }
